@@ -204,6 +204,7 @@ package dispatch
 //@   at call sync.Map).LoadOrStore assert [store-only-when-nothing-was-seen] !loaded && unbox(arg1, model.Fingerprint) == ret("LabelSet).Fingerprint") && unbox(arg2, *aggrGroup) == ret("newAggrGroup")
 //@   at call aggrGroup).resetTimer assert [immediate-flush-only-for-old-alerts] arg1 == 0 && alert.StartsAt + ret("newAggrGroup").opts.GroupWait < first("time.Now")
 //@   ensures [replaced-group-is-cancelled] called("CompareAndSwap") && ret("CompareAndSwap") ==> called("dynamic:field:cancel")
+//@   ensures [only-a-replaced-group-is-cancelled] count("dynamic:field:cancel") == counttrue0("CompareAndSwap")
 //@   ensures [published-at-most-once] counttrue0("CompareAndSwap") + count("LoadOrStore") - counttrue1("LoadOrStore") <= 1
 //@   ensures [stored-group-is-counted] count("Int32).Add") == count("LoadOrStore") - counttrue1("LoadOrStore") && count("Int64).Add") == count("LoadOrStore") - counttrue1("LoadOrStore")
 //@   ensures [old-alert-flushes-at-once] (counttrue0("CompareAndSwap") + count("LoadOrStore") - counttrue1("LoadOrStore") == 1) && alert.StartsAt + ret("newAggrGroup").opts.GroupWait < first("time.Now") ==> called("aggrGroup).resetTimer")
@@ -211,7 +212,7 @@ package dispatch
 //@   loop 1 invariant called("newAggrGroup") && count("aggrGroup).insert") >= 1
 //@   loop 1 invariant counttrue0("CompareAndSwap") == 0 && count("LoadOrStore") == counttrue1("LoadOrStore") && (called("CompareAndSwap") ==> !ret("CompareAndSwap")) && count("Int32).Add") == 0 && count("Int64).Add") == 0 && !called("aggrGroup).resetTimer") && !called("Dispatcher).runAG")
 //@   loop 1 invariant (loaded ==> count("CompareAndSwap") <= counttrue1("LoadOrStore")) && (!loaded ==> count("CompareAndSwap") <= counttrue1("LoadOrStore") + 1) && count("CompareAndSwap") <= counttrue1("LoadOrStore") + 1
-//@   loop 1 invariant called("time.Now") && called("LabelSet).Fingerprint") && counttrue0("aggrGroup).insert") >= 0
+//@   loop 1 invariant called("time.Now") && called("LabelSet).Fingerprint") && counttrue0("aggrGroup).insert") >= 0 && count("dynamic:field:cancel") == 0
 //@   noeffect newAggrGroup aggrGroup).insert runAG resetTimer cancel Route).Key MaxNumberOfAggregationGroups
 
 //@ func (*Dispatcher).doMaintenance$1
